@@ -468,7 +468,9 @@ fn validate_challenge(ca: &Ca, ai: usize, ci: usize, thumb: &str) -> (bool, Valu
     let ident = &a.identifier_value;
     match c.ty.as_str() {
         "http-01" => {
-            let root = val.get("http_root").and_then(|v| v.as_str()).unwrap_or("/var/www");
+            // (an identifier may be served from a root of its own)
+            let root = val.get("http_root_by_id").and_then(|m| m.get(ident.as_str())).and_then(|v| v.as_str())
+                .or_else(|| val.get("http_root").and_then(|v| v.as_str())).unwrap_or("/var/www");
             let path = format!("{root}/{ident}/.well-known/acme-challenge/{}", c.token);
             match std::fs::read(&path) {
                 Ok(b) => {
@@ -506,7 +508,7 @@ fn validate_challenge(ca: &Ca, ai: usize, ci: usize, thumb: &str) -> (bool, Valu
                         if let Ok(s) = std::os::unix::net::UnixStream::connect(&p) { _idle_unix = Some(s); break; }
                     } else {
                         let host = alpn.get("host").and_then(|v| v.as_str()).unwrap_or("{identifier}").replace("{identifier}", ident);
-                        let port = alpn.get("port").and_then(|v| v.as_u64()).unwrap_or(5001);
+                        let port = alpn.get("port_by_id").and_then(|m| m.get(ident.as_str())).and_then(|v| v.as_u64()).or_else(|| alpn.get("port").and_then(|v| v.as_u64())).unwrap_or(5001);
                         if let Ok(s) = TcpStream::connect((host.as_str(), port as u16)) { _idle_tcp = Some(s); break; }
                     }
                     std::thread::sleep(std::time::Duration::from_millis(50));
@@ -522,7 +524,7 @@ fn validate_challenge(ca: &Ca, ai: usize, ci: usize, thumb: &str) -> (bool, Valu
                     }
                 } else {
                     let host = alpn.get("host").and_then(|v| v.as_str()).unwrap_or("{identifier}").replace("{identifier}", ident);
-                    let port = alpn.get("port").and_then(|v| v.as_u64()).unwrap_or(5001);
+                    let port = alpn.get("port_by_id").and_then(|m| m.get(ident.as_str())).and_then(|v| v.as_u64()).or_else(|| alpn.get("port").and_then(|v| v.as_u64())).unwrap_or(5001);
                     target = format!("{host}:{port}");
                     match TcpStream::connect((host.as_str(), port as u16)) {
                         Ok(s) => { let _ = s.set_read_timeout(Some(std::time::Duration::from_secs(5))); tls_probe_versions(s, ident, &protos, alpn.get("min_tls").and_then(|v| v.as_str()), alpn.get("max_tls").and_then(|v| v.as_str())) }
